@@ -37,7 +37,10 @@ CleanCase(e) ==
 WatchCase(e) ==
   \A i \in 1..Len(e.m.ops) :
     LET op == e.m.ops[i]  r == e.obs.results[i]
-        rel == Relevant(op.p, e.m.exts) \/ (op.kind = "rename" /\ Relevant(op.to, e.m.exts)) IN
+        RelAny(f) == \E k \in 1..Len(e.m.resources) :
+                        /\ \E d \in SeqToSet(e.m.resources[k].paths) : IsPrefix(d, f)
+                        /\ Relevant(f, e.m.resources[k].exts)
+        rel == RelAny(op.p) \/ (op.kind \in {"rename", "mvdir"} /\ RelAny(op.to)) IN
     /\ CheckAll({"C16"}, <<"watcher-dead-after", e.id, op.kind, op.p>>, r.alive)
     /\ CheckAll({"C16"} \cup SeqToSet(e.m.also), <<"relevant-change-not-reported", e.id, op.kind, op.p>>, (op.check /\ rel /\ r.alive) => r.triggered)
     /\ CheckAll({"C16"} \cup SeqToSet(e.m.also), <<"irrelevant-change-reported", e.id, op.kind, op.p>>, (op.check /\ ~rel) => ~r.triggered)
